@@ -59,7 +59,8 @@ REQUIRED = ['plot:pd_ts', 'plot:pk_ts', 'plot:pd_pred', 'plot:pk_pred', 'plot:re
             'nan:time', 'nanobs', 'idx:perm', 'idx:dup', 'keys:custom', 'obs:explicit', 'ties', 'n>=50',
             'probs>=2', 'probs=7', 'intvalues', 'scatter', 'resid:indiv', 'resid:rel', 'resid:nores',
             'band:both', 'obsdtype:object', 'resid:intvalues', 'nanobs:first-default:pd_pred',
-            'nanobs:first-default:pd_ts', 'dose:unshown-individual', 'times:unsorted', 'times:close', 'ids>10', 'dose:zero_amount', 'simulation_before_data']
+            'nanobs:first-default:pd_ts', 'dose:unshown-individual', 'times:unsorted', 'times:close', 'ids>10', 'dose:zero_amount', 'simulation_before_data',
+            'individual_with_>2000_measurements']
 
 PLOTS = ['pd_ts', 'pk_ts', 'pd_pred', 'pk_pred', 'resid']
 KEYPOOL = {
@@ -353,6 +354,39 @@ def strategy(tier):
     return _spec()
 
 
+def extra_cases(tier):
+    """Densely sampled individuals (continuous monitoring): every plot that takes measurements, one individual with
+    2500 / 4003 measurements of the chosen observable next to sparsely sampled ones."""
+    out = []
+    for plot, n_dense in (('pd_ts', 2500), ('pk_ts', 4003), ('pd_pred', 2881), ('pk_pred', 2500)):
+        kind = 'pk' if plot.startswith('pk') else 'pd'
+        fields = ['id', 'time', 'obs', 'value'] + (['dose', 'dur'] if kind == 'pk' else [])
+        pad = [None, None] if kind == 'pk' else []
+        rows = []
+        for i, n in ((3, 4), (7, n_dense), (5, 2000)):
+            for k in range(n):
+                rows.append([i, gen.r6(0.25 * k), 'a', gen.r6(10.0 + 3.0 * math.sin(0.01 * k * (i + 1)))] + pad)
+            rows.append([i, 1.0, 'B', 0.5] + pad)
+            if kind == 'pk':
+                rows.append([i, 0.0, None, None, 10.0, 0.5])
+        data = dict(fields=fields, keys={r: KEYPOOL[r][0] for r in fields}, rows=rows, order=list(fields), index=None,
+                    obs_object=False)
+        spec = dict(plot=plot, updatemenu=True, data=data, observable='a', dense=True)
+        if plot == 'pd_ts':
+            spec['sim'] = dict(fields=['time', 'value'], rows=[[0.0, 1.0], [1.0, 2.0]],
+                               keys={r: KEYPOOL[r][0] for r in ('time', 'value')}, order=['time', 'value'], index=None,
+                               obs_object=False)
+        if plot.endswith('pred'):
+            pf = ['time', 'obs', 'value'] + (['dose', 'dur'] if kind == 'pk' else [])
+            prow = [[float(t), 'a', gen.r6(8.0 + 0.01 * ((37 * k + 11 * t) % 400))] + pad for t in (1, 2, 5)
+                    for k in range(40)]
+            spec.update(with_data=True, pred_observable='a', probs=[0.3, 0.9],
+                        pred=dict(fields=pf, keys={r: KEYPOOL[r][0] for r in pf}, rows=prow, order=list(pf), index=None,
+                                  obs_object=False))
+        out.append(spec)
+    return out
+
+
 # ---------------------------------------------------------------------------------------------
 # measuring the generator
 # ---------------------------------------------------------------------------------------------
@@ -380,6 +414,8 @@ def _chosen_samples(spec):
 
 def classify(spec):
     labs = ['plot:' + spec['plot']]
+    if spec.get('dense'):
+        labs.append('individual_with_>2000_measurements')
     data = spec['data']
     ids = _col(data, 'id')
     if any(isinstance(i, str) for i in ids):
